@@ -673,14 +673,15 @@ func raceModels(w *World) {
 		}
 	case 1:
 		m := parentpb.NewModel()
-		m.AddChild(&traits.Child{Name: "c1", Traits: []*traits.Trait{{Name: "a"}, {Name: "m"}}})
+		// (three traits: a list of three is stored with room for a fourth)
+		m.AddChild(&traits.Child{Name: "c1", Traits: []*traits.Trait{{Name: "a"}, {Name: "m"}, {Name: "n"}}})
 		names := []string{"c1", "c2"}
-		tn := []trait.Name{"a", "b", "m", "z"}
+		tn := []trait.Name{"a", "b", "m", "x", "y", "z"}
 		for i := range lists {
 			k := 1 + t.Choose(4)
 			for j := 0; j < k; j++ {
 				name := names[t.Choose(2)]
-				t1, t2 := tn[t.Choose(4)], tn[t.Choose(4)]
+				t1, t2 := tn[t.Choose(len(tn))], tn[t.Choose(len(tn))]
 				switch t.Choose(6) {
 				case 0, 1:
 					lists[i] = append(lists[i], func(*Task) { c, _ := m.AddChildTrait(name, t1, t2); touch(c) })
